@@ -913,3 +913,35 @@ pub fn sched_at_offsets(ends: &[usize], delta: i64) -> Sched {
 	}
 	Sched { list, cycle: false }
 }
+
+// ---------------------------------------------------------------- serde view of model values (oracle-side probing)
+
+impl serde::Serialize for V {
+	fn serialize<S: serde::Serializer>(&self, s: S) -> Result<S::Ok, S::Error> {
+		use serde::ser::{SerializeMap, SerializeSeq};
+		match self {
+			V::Null => s.serialize_unit(),
+			V::Bool(b) => s.serialize_bool(*b),
+			V::I(i) => s.serialize_i64(*i),
+			V::U(u) => s.serialize_u64(*u),
+			V::F(f) => s.serialize_f64(*f),
+			V::S(x) => s.serialize_str(x),
+			V::B(b) => s.serialize_bytes(b),
+			V::A(a) => {
+				let mut q = s.serialize_seq(Some(a.len()))?;
+				for x in a {
+					q.serialize_element(x)?;
+				}
+				q.end()
+			}
+			V::M(m) => {
+				let mut q = s.serialize_map(Some(m.len()))?;
+				for (k, x) in m {
+					q.serialize_key(k)?;
+					q.serialize_value(x)?;
+				}
+				q.end()
+			}
+		}
+	}
+}
